@@ -12,19 +12,19 @@ cp "$SD/patch.diff" "$OUT/patch.diff"; cp "$SD"/demo*.go "$OUT/" 2>/dev/null; cp
 demo=$(ls "$SD"/demo*.go | head -1); dn="seedv_$(echo $ID$X | tr 'A-Z' 'a-z')_test.go"
 cp "$demo" "$WT/$TGT/$dn"
 run=$(grep -o 'func Test[A-Za-z0-9_]*' "$demo" | sed 's/func //' | paste -sd'|')
-base=$( (cd "$WT" && go test -vet=off -count=1 -run "^($run)\$" "./$TGT/" 2>&1 | tail -3) ); base_rc=$?
-(cd "$WT" && go test -vet=off -count=1 -run "^($run)\$" "./$TGT/" >/dev/null 2>&1); base_rc=$?
+base=$( (cd "$WT" && go test $SEED_RACE -vet=off -count=1 -run "^($run)\$" "./$TGT/" 2>&1 | tail -3) ); base_rc=$?
+(cd "$WT" && go test $SEED_RACE -vet=off -count=1 -run "^($run)\$" "./$TGT/" >/dev/null 2>&1); base_rc=$?
 git -C "$WT" apply "$SD/patch.diff" || { echo "PATCH DOES NOT APPLY"; exit 3; }
 (cd "$WT" && go build ./... ) || { echo "DOES NOT BUILD"; exit 3; }
-(cd "$WT" && go test -vet=off -count=1 -run "^($run)\$" "./$TGT/" >/dev/null 2>&1); mut_rc=$?
+(cd "$WT" && go test $SEED_RACE -vet=off -count=1 -run "^($run)\$" "./$TGT/" >/dev/null 2>&1); mut_rc=$?
 rm -f "$WT/$TGT/$dn"
 tests="not run"
 if [ -n "$PKGS" ]; then tests=$(/verif/tools/baseline.sh "$WT" $PKGS | head -4 | tr '\n' ' '); fi
 chk=$(VERIF_REPO="$WT" /verif/check "$ID" quick 2>/dev/null); rc=$?
-verdict="MISSED"; [ $rc -eq 1 ] && verdict="CAUGHT"
+verdict="MISSED"; [ $rc -eq 1 ] && verdict="CAUGHT"; [ $rc -gt 1 ] && verdict="CHECK-ERROR-rc$rc"
 keys=$(echo "$chk" | grep '^VIOLATION' | sed 's/.*key=\([^ ]*\).*/\1/' | sort -u | head -5 | paste -sd',')
 echo "SEED $ID-$X: demo without change rc=$base_rc (want 0), with change rc=$mut_rc (want !=0); own tests: $tests; check: $verdict [$keys]"
 cat > "$OUT/meta.json" <<J
 {"property": "$ID", "seed": "$X", "demo_target_dir": "$TGT", "demo_passes_without_change": $([ $base_rc -eq 0 ] && echo true || echo false), "demo_fails_with_change": $([ $mut_rc -ne 0 ] && echo true || echo false), "repo_tests_with_change": "$tests", "check_quick_verdict": "$verdict", "violation_keys": "$keys", "verified_with": "tools/seed_verify.sh $ID $X $SD $TGT $PKGS"}
 J
-git -C /repo worktree remove --force "$WT"; rm -rf "$WT.out" /verif/bin/*seedv*
+git -C /repo worktree remove --force "$WT"; rm -rf "$WT.out" /verif/bin/*seedv_${ID}_${X}_*
